@@ -177,6 +177,8 @@ def strategy(profile, quick):
 
     if profile == "cascade":
         base = e2e.case_strategy("cascade", max_ops=5, big=True, small_arena=True, dtypes=("int8", "int8", "uint8"))
+    elif profile == "elementwise":
+        base = e2e.case_strategy("elementwise", max_ops=3, big=False, dtypes=("int8", "int8", "uint8"))
     elif profile == "slices":
         base = e2e.case_strategy("slices", max_ops=5, big=False, dtypes=("int8", "int8", "uint8"))
     else:
@@ -194,6 +196,7 @@ def parts(ctx):
     ps = [Part("exact%02d" % i, part, ("exact", i, 22 if q else 700)) for i in range(10)]
     ps += [Part("cascade%02d" % i, part, ("cascade", i, 8 if q else 250)) for i in range(6)]
     ps += [Part("slices%02d" % i, part, ("slices", i, 16 if q else 500)) for i in range(6)]
+    ps += [Part("elementwise%02d" % i, part, ("elementwise", i, 20 if q else 600)) for i in range(4)]
     return ps
 
 
